@@ -13,6 +13,7 @@ import json
 
 import z3
 
+from vp.world import raised_in_harness as _rih
 from vp import symx, util
 from vp.symx import oblige, zint
 from vp.mxr import PrefixSum, MArr
@@ -83,6 +84,15 @@ def structures(tier, seed):
         out.append(base(part="sequential", axes=two, arr={"X": "center", "Y": "center"}, axis=axis, to={"X": "outer", "Y": "right"},
                         cboundary={"X": "fill", "Y": "extend"}, cfill={"X": "S"}, gperiodic=False, extra=1))
         out.append(base(part="sequential", axes=two, arr={"X": "left", "Y": "inner"}, axis=axis, to="center", gperiodic=False, gfill="S"))
+    # per-call mappings that name only SOME axes of the grid: the axes left out keep the grid's own rule / fill value
+    for axis in (["X", "Y"], ["Y", "X"]):
+        out.append(base(part="sequential", axes=two, arr={"X": "center", "Y": "center"}, axis=axis, to={"X": "outer", "Y": "right"},
+                        cboundary={"X": "fill"}, cfill={"X": "S"}, gboundary={"X": "extend", "Y": "extend"}, gperiodic=False))
+        out.append(base(part="sequential", axes={"X": ("center", "left"), "Y": ("center", "left")}, arr={"X": "center", "Y": "center"}, axis=axis,
+                        to="left", cboundary={"X": "extend"}, gfill={"X": "S", "Y": "S"}, gperiodic=False))
+    for sp in ("X", "Y"):
+        out.append(base(axes={"X": ("center", "left"), "Y": ("center", "left")}, arr={"X": "center", "Y": "center"}, axis=sp, to="left",
+                        cboundary={"X" if sp == "Y" else "Y": "periodic"}, gperiodic=False, gfill="S"))
     # diff o cumsum = id
     for extra in (0, 1):
         out.append(base(part="inverse", axes={"X": ("center", "outer")}, arr={"X": "center"}, to="outer", extra=extra))
@@ -480,5 +490,5 @@ def native_generic(s, wit, ob):
             return {"confirmed": not same, "text": "\n".join(text + (["order of axes changes the result"] if not same else ["agrees natively"]))}
     except Exception as e:  # noqa
         import traceback
-        return {"confirmed": True, "text": "\n".join(text + [f"REAL CODE RAISED {type(e).__name__}: {e}", traceback.format_exc(limit=-3)])}
+        return {"confirmed": not _rih(e), "text": "\n".join(text + [f"REAL CODE RAISED {type(e).__name__}: {e}", traceback.format_exc(limit=-3)])}
     return {"confirmed": False, "text": "no native replay for this part"}
